@@ -27,6 +27,7 @@ class Recorder:
         self._depth = 0
         self._orig: dict[str, Any] = {}
         self.skipped_large = 0
+        self._txt: dict[str, int] = {}
         self.events = 0
 
     # -- ids ---------------------------------------------------------------
@@ -71,6 +72,7 @@ class Recorder:
             return
         ev['row'] = [self._tid(tr, t) for t in row]
         ev['szs'] = [_size(t.raw_text) for t in row]
+        ev['txt'] = [self._txt.setdefault(t.raw_text, len(self._txt) + 1) for t in row]
         try:
             ev['len'] = len(store)
             ev['first'] = self._tid(tr, store.get_first())
@@ -93,6 +95,25 @@ class Recorder:
         self.events += 1
         if len(tr['events']) >= MAX_EVENTS:
             tr['dead'] = True
+
+    def assign(self, store: Any, tok: Any, fn: Any, expect_text: Optional[str] = None) -> Any:
+        """Run fn() (a value / raw_text assignment through the model API on `tok`) as ONE event;
+        the store-level calls underneath are not logged separately.  Returns the exception or None."""
+        tr = self._trace_for(store)
+        self._depth += 1
+        exc = None
+        try:
+            fn()
+        except Exception as e:  # noqa: BLE001
+            exc = e
+        finally:
+            self._depth -= 1
+        if tr is not None:
+            self._observe(tr, store, {'op': 'assign', 'r': self._tid(tr, tok), 'e': 0, 'toks': [],
+                                      'exc': type(exc).__name__ if exc else '',
+                                      'newtxt': self._txt.setdefault(tok.raw_text if expect_text is None or exc else expect_text,
+                                                                  len(self._txt) + 1)})
+        return exc
 
     def observe(self, store: Any) -> None:
         """Explicit stuttering observation (after a model-level call)."""
